@@ -370,6 +370,7 @@ Definition code_allowed (x : bop * code) : bool :=
   | (BoSched, Nil) | (BoSched, ErrJobAlreadyExists) => true
   | (BoCancel, Nil) | (BoCancel, ErrNoSuchJob) => true
   | (BoRun, Nil) | (BoRun, ErrNoSuchJob) => true
+  | (BoCtx, Nil) | (BoRelease _, Nil) => true
   | _ => false
   end.
 
@@ -395,8 +396,10 @@ Definition P_burst (b : burst) (o : bobs) : bool :=
   let found := if bo_exists1 o then Nil else ErrNoSuchJob in
   negb (bo_bad o) && bo_lists_ok o && shape_ok b o && forallb code_allowed oc
   && (len (bo_runs1 o) =? len sched_codes) && (len (bo_runs2 o) =? len sched_codes) && (len (bo_runs3 o) =? len sched_codes)
-  (* the name is held by at most one job *)
-  && (A =? C + (if per then 0 else R) + E1)
+  (* the name is held by at most one job (when the context of the job that held the name before the
+     burst is cancelled during the burst, that one job may have left the table by itself) *)
+  && (C + (if per then 0 else R) + E1 <=? A)
+  && (A <=? C + (if per then 0 else R) + E1 + (if existsb (fun x => bop_eqb (fst x) BoCtx) oc then 1 else 0))
   (* at rest after the burst: the runs are the successful run requests *)
   && (sum_N (bo_runs1 o) =? R) && at_most_once (bo_runs1 o) && refused_never_run (bo_runs1 o)
   (* the follow-up, issued at rest *)
